@@ -68,7 +68,8 @@ def run(ctx):
             raise tlc.TLCMachineryError(f"ShampooDist column model violates {r.violated}")
     tasks = attach_spec([make_task(rng, "fully") for _ in range(40 if quick else 400)] + [make_task(rng, "hybrid") for _ in range(30 if quick else 300)])
     tasks = [t for t in tasks if C07.usable(t)]
-    results = sp.pool_map(dc.run_dtensor_task, tasks)
+    results = sp.sim_map(dc.run_dtensor_task, tasks, lambda r: bool(r.get("crash") or r.get("verdict") or r.get("param_mismatch") or any((r.get("errors") or {}).values())))
+    ctx.put("worlds_not_reproduced_on_rerun", sum(1 for r in results if r.get("_flaky_first_run")))
     # the filtered (non-empty) parameter list must be what block ids are indexed over: check keys are unique per rank
     for t, res in zip(tasks, results):
         for r, inf in res.get("info", {}).items():
